@@ -99,9 +99,10 @@ def run_case(rs, ctx):
     if gen.is_linear(cfg) and cfg["lp"].get("scale") and rs.integers(2):
         # a timestamp-like first column: huge common value, spread of a few 2^-17 - inside an arm's rows the column is 'nearly
         # constant' by scikit-learn's own rule although its standard deviation is far above zero
+        base_, step_ = gen.pick(rs, [(1.7e9, 2.0 ** -19), (1.7e12, 2.0 ** -12), (1.7e12, 2.0 ** -12)])  # seconds / milliseconds
         for o_ in hist + cont:
             if o_.get("X") is not None:
-                o_["X"] = [[1.7e9 + row[0] * 2.0 ** -17] + list(row[1:]) for row in o_["X"]]
+                o_["X"] = [[base_ + row[0] * step_] + list(row[1:]) for row in o_["X"]]
                 o_.pop("x_enc", None)
         ctx.count("timestamp_column_cases")
     M = gen.build(cfg)
